@@ -144,6 +144,11 @@ func (e *Explorer) cost(p Point, alt int) int {
 		return 0
 	}
 	if e.Delay {
+		// environment events (~clock, ~x: cancellation / expiry) sort last and
+		// cost a single delay wherever they are placed
+		if alt < len(p.Enabled) && len(p.Enabled[alt]) > 0 && p.Enabled[alt][0] == '~' {
+			return 1
+		}
 		return alt
 	}
 	if p.RunningEnabled {
